@@ -1,6 +1,6 @@
 from harness.props import _hier
 LEVEL = _hier.LEVEL
-EXTRA_PROPS_FILES = ["Scfg/Props/C01Join.lean", "Scfg/Props/C01Frame.lean", "Scfg/Props/C01Wrap.lean", "Scfg/Props/C01Chain.lean", "Scfg/Props/C01Conv.lean"]
+EXTRA_PROPS_FILES = ["Scfg/Props/C01Join.lean", "Scfg/Props/C01Frame.lean", "Scfg/Props/C01Wrap.lean", "Scfg/Props/C01Chain.lean", "Scfg/Props/C01Conv.lean", "Scfg/Props/C01Fuel.lean"]
 
 
 def run(ctx):
